@@ -15,6 +15,8 @@
 //	name  <tag> record
 //	real  <kind> record expected-known expected-match
 //	reloc record record           second text = first with sentinel and pcs shifted
+//	child sentinel text status [name] frames16   the report delivered on stdin to a process running the
+//	                                             real crashmonitor.Child (status ok | err = crash/malformed | nocrash)
 //	uint  string status value     strconv.ParseUint(s, 0, 64) itself (the model's parse_uint0)
 //	sscan line status value       fmt.Sscanf(line, "sentinel %x", &u64) itself (the model's scan_sentinel)
 package main
@@ -114,7 +116,7 @@ func record(text string) (fields []string, pcs []uintptr, name string, ok bool) 
 
 // ---------------------------------------------------------------- real crashes
 
-var kinds = []string{"generic-chain", "longmsg", "longnames", "longnames-mixed", "nil", "panic", "index", "map", "inlined", "method", "generic", "goroutine", "deep16", "deep", "deadlock"}
+var kinds = []string{"hugemsg", "generic-chain", "longmsg", "longnames", "longnames-mixed", "nil", "panic", "index", "map", "inlined", "method", "generic", "goroutine", "deep16", "deep", "deadlock"}
 
 type realCrash struct {
 	kind     string
@@ -174,6 +176,111 @@ func caseReal(rc realCrash) {
 	all = append(all, B(rc.haveExp), B(match))
 	out.Note("real-" + rc.kind)
 	out.Case(true, all...)
+}
+
+// ---------------------------------------------------------------- through the real Child process
+
+var scratchDir string
+var childSeq int
+
+// runChild delivers text on the stdin of a process running the real
+// crashmonitor.Child and returns what it would have counted.
+func runChild(text string) (status, name string) {
+	exe, err := os.Executable()
+	if err != nil {
+		panic(err)
+	}
+	childSeq++
+	outf := filepath.Join(scratchDir, fmt.Sprintf("monitor-%d.out", childSeq))
+	cmd := exec.Command(exe)
+	cmd.Env = append(os.Environ(), "VH_MONITOR_OUT="+outf, "TMPDIR="+scratchDir)
+	cmd.Stdin = strings.NewReader(text)
+	cmd.Run() // Child ends with log.Fatal or os.Exit
+	data, _ := os.ReadFile(outf)
+	os.Remove(outf)
+	var names []string
+	exited := false
+	for _, l := range strings.Split(string(data), "\n") {
+		if strings.HasPrefix(l, "name ") {
+			var b []byte
+			fmt.Sscanf(l, "name %x", &b)
+			names = append(names, string(b))
+		} else if l == "exit" {
+			exited = true
+		}
+	}
+	switch {
+	case len(names) == 1 && names[0] == "crash/malformed":
+		return "err", ""
+	case len(names) == 1:
+		return "ok", names[0]
+	case len(names) == 0 && exited:
+		return "nocrash", ""
+	}
+	return "unexpected", strings.Join(names, "|")
+}
+
+func caseChild(tag, text string) {
+	status, name := runChild(text)
+	fields := []string{"child", U(childSentinel), HS(text), status}
+	if status == "ok" {
+		fields = append(fields, HS(name))
+	}
+	// frames of the pcs the report yields in this process (the model's symboliser)
+	var fs []frame
+	func() {
+		defer func() { recover() }() // a panic of the in-process parser is reported by the name cases
+		if pcs, err := crashmonitor.VerifParseStackPCs(text); err == nil && len(pcs) > 0 {
+			if len(pcs) > 16 {
+				pcs = pcs[:16]
+			}
+			fs = framesOf(pcs)
+		}
+	}()
+	fields = append(fields, I(int64(len(fs))))
+	for _, f := range fs {
+		fields = append(fields, HS(f.fn), B(f.hasFunc), I(int64(f.line)), U(uint64(f.off)))
+	}
+	out.Note("child-" + status + "-" + tag)
+	out.Case(true, fields...)
+}
+
+// straddle inserts a long non-PC line so that byte offset limit of the report
+// falls inside (or just before) the first running goroutine's stack.
+func straddle(text string, limit int) string {
+	h := strings.Index(text, "\ngoroutine ")
+	for h >= 0 {
+		e := strings.Index(text[h+1:], "\n")
+		if e < 0 || strings.Contains(text[h+1:h+1+e], " [running]:") {
+			break
+		}
+		n := strings.Index(text[h+1:], "\ngoroutine ")
+		if n < 0 {
+			h = -1
+			break
+		}
+		h = h + 1 + n
+	}
+	if h < 0 {
+		return text
+	}
+	end := strings.Index(text[h+1:], "\n\n")
+	if end < 0 {
+		end = len(text) - h - 1
+	}
+	cut := h - 40 + rnd.Intn(end+80) // somewhere from just before the header to just after the stack
+	if cut < 0 {
+		cut = 0
+	}
+	l := limit - cut - 1
+	if l < 1 {
+		return text
+	}
+	nl := strings.Index(text, "\n") // after the sentinel line
+	if nl < 0 || nl >= h {
+		nl = -1
+	}
+	return text[:nl+1] + "panic: " + strings.Repeat("m", l-7) + "\n" + text[nl+1:]
 }
 
 // ---------------------------------------------------------------- structured tracebacks
@@ -369,7 +476,7 @@ func symbolOf(line string) (string, bool) {
 	return "", false
 }
 
-var otherSymbols = []string{"main.secretFunction", "example.com/private/repo.(*Client).Do", "pkg.(*T[...]).method", "runtime.sigpanic2", "xruntime.sigpanic", "runtime.sigpanic.func1", "a.b.c", "é.f", "f"}
+var otherSymbols = []string{"", "", "(*T).method", "main.secretFunction", "example.com/private/repo.(*Client).Do", "pkg.(*T[...]).method", "runtime.sigpanic2", "xruntime.sigpanic", "runtime.sigpanic.func1", "a.b.c", "é.f", "f"}
 
 // rewriteNonPC rewrites every field the projection ignores.
 func rewriteNonPC(t tb) tb {
@@ -498,7 +605,7 @@ func mutate(t tb) (tb, string) {
 		return t, "pairing-drop"
 	case 4: // insert a line
 		i := rnd.Intn(len(t.body) + 1)
-		l := Pick(rnd, []string{safeLine(), "x(", "\t/f.go:1 +0x1 pc=0x10", "no paren here", "a.(b"})
+		l := Pick(rnd, []string{safeLine(), "x(", "(", "(x)", "\t/f.go:1 +0x1 pc=0x10", "no paren here", "a.(b"})
 		t.body = append(t.body[:i], append([]string{l}, t.body[i:]...)...)
 		return t, "pairing-insert"
 	case 5: // PC spellings, valid and invalid
@@ -518,7 +625,7 @@ func mutate(t tb) (tb, string) {
 	case 7: // sigpanic moved around
 		for i := 0; i < len(t.body); i += 2 {
 			if rnd.Chance(25) {
-				t.body[i] = Pick(rnd, []string{"runtime.sigpanic()", "runtime.sigpanic(0x1, 0x2)", "runtime.sigpanic.(x)", "runtime.sigpanic", "runtime.sigpanic ()", "runtime.sigpanic2()", " runtime.sigpanic()"})
+				t.body[i] = Pick(rnd, []string{"(...)", "()", "(", "(0x1, 0x2)", "((", ".(", "(*T).m(0x1)", "runtime.sigpanic()", "runtime.sigpanic(0x1, 0x2)", "runtime.sigpanic.(x)", "runtime.sigpanic", "runtime.sigpanic ()", "runtime.sigpanic2()", " runtime.sigpanic()"})
 			}
 		}
 		return t, "sigpanic-placement"
@@ -658,6 +765,9 @@ func randomText() string {
 func parsedReals() []tb {
 	var res []tb
 	for _, rc := range reals {
+		if len(rc.text) > 100000 {
+			continue // the long-message reports have their own cases; not a base for thousands of rewrites
+		}
 		if t, ok := parseTB(rc.text); ok {
 			res = append(res, t)
 		}
@@ -751,6 +861,10 @@ func caseSscan() {
 }
 
 func main() {
+	if p := os.Getenv("VH_MONITOR_OUT"); p != "" {
+		monitorMain(p)
+		os.Exit(0)
+	}
 	if k := os.Getenv("VH_CRASH_KIND"); k != "" {
 		childMain(k)
 		os.Exit(0)
@@ -765,9 +879,14 @@ func main() {
 		panic(err)
 	}
 	defer os.RemoveAll(dir)
+	scratchDir = dir
 	produceCrashes(dir)
 	for _, rc := range reals {
 		caseReal(rc)
+	}
+	// the same real reports delivered to the real Child process on its stdin
+	for _, rc := range reals {
+		caseChild("real-"+rc.kind, rc.text)
 	}
 	bases := parsedReals()
 	emit := func(tag, text string) {
@@ -791,13 +910,45 @@ func main() {
 			caseUint()
 		case i%40 == 39:
 			caseSscan()
-		case i%50 == 7: // a very long line before the goroutine, on a real and on a synthetic report
+		case i%100 == 7: // a very long line before the goroutine, on a real and on a synthetic report
 			t := rewriteNonPC(base).String()
 			emit("rewrite", t)
 			emit("long-line", withLongLine(t))
 			sy := synth()
 			emit("synthetic", sy)
 			emit("long-line-synthetic", withLongLine(sy))
+		case i%1500 == 27 || i%750 == 127 || i%300 == 227: // a report whose running goroutine straddles a size mark, both routes
+			limit := 1 << 16
+			if i%1500 == 27 {
+				limit = 1 << 20
+			} else if i%750 == 127 {
+				limit = 1 << 18
+			}
+			for try := 0; try < 8; try++ { // a base that yields a name
+				if _, _, _, ok := record(base.String()); ok {
+					break
+				}
+				base = Pick(rnd, bases)
+			}
+			t := straddle(base.String(), limit)
+			emit("straddle", t)
+			caseChild("straddle", t)
+			emit("rewrite", base.String())
+		case i%25 == 12: // any other report through the Child process as well
+			var t string
+			switch rnd.Intn(4) {
+			case 0:
+				t = synth()
+			case 1:
+				t = randomText()
+			case 2:
+				mt, _ := mutate(base)
+				t = mt.String()
+			default:
+				t = rewriteNonPC(base).String()
+			}
+			emit("both-routes", t)
+			caseChild("both-routes", t)
 		case i%10 == 6: // real pcs of generic instantiations followed by same-package callers
 			emit("generic-names", genericReport())
 		case i%10 == 3: // real pcs of long-named functions: names near / beyond the limit
